@@ -837,5 +837,6 @@ def build_bomb(case):
     }
     return core.SparseFile(fsize, chunks, salt=case.get("salt", 0))
 
-from harness.readers import under_O  # noqa: E402
+from harness.readers import under_O, under_debug  # noqa: E402
 SUITES["vmdk_pyO"] = under_O(SUITES["vmdk"])
+SUITES["vmdk_dbg"] = under_debug(SUITES["vmdk"])
